@@ -32,10 +32,10 @@ RULE = (
     "mid-gap, after the last event, and the dt alphabet. non-trivial = dt != 0 (the state actually evolves); distinct by tuple"
 )
 BOUNDS = {
-    "quick": "R in {6778, 26560, 42164} km; 8 states; 13 dt; 253 ordered maneuver lists + 18 impulse-in-burn lists, 2 initial states; "
+    "quick": "R in {6778, 26560, 42164} km; 8 states; 13 dt; 252 ordered maneuver lists + 18 impulse-in-burn lists on one combined initial state; "
     "Kepler comparison: 9 separations 4 km..15.6 m x 5 shapes x 5 dt; helpers: 7 builders x 6 distances",
     "thorough": "R in {6578, 6778, 7378, 26560, 42164} km; 10 states; 21 dt; 2 burn durations; lists up to 3 events with 3 gap "
-    "values; Kepler: 8 shapes x 8 dt; helpers x 10 distances",
+    "values, 2 initial states; Kepler: 8 shapes x 8 dt; helpers x 10 distances",
 }
 ASSUMPTIONS = [
     "reference = Taylor-series (order 24) integration of Hill's equations in nondimensional time; impulses once at their date, thrust on [start, stop)",
@@ -280,7 +280,7 @@ def sig_mans(mans, q):
     last = seen[-1]
     if last["type"] == "C" and q < last["start"] + last["dur"]:
         return "during-burn"
-    return "after-" + "".join(m["type"] for m in seen)
+    return "after-burn" if any(m["type"] == "C" for m in seen) else "after-impulse"
 
 
 def _lib_prop(orb, q, t, sig, clause, case):
@@ -352,7 +352,7 @@ def check_perm(case, t):
     d = res["TNW"] - hill.P6 @ res["QSW"]
     e = max(np.max(np.abs(d[:3])) / L, np.max(np.abs(d[3:])) / (L * n))
     if not t.margin("TNW vs permuted QSW [rel.]", e, 1e-15 * 8, case):
-        t.fail("cw.propagate/perm/" + sig_mans(mans, q), "TNW result is the fixed axis permutation of the QSW result", case,
+        t.fail("cw.propagate/perm", "TNW result is the fixed axis permutation of the QSW result", case,
                hill.P6 @ res["QSW"], res["TNW"], f"scaled diff {e:.3e}")
     t.outcome("perm")
 
@@ -726,7 +726,7 @@ def units(tier, seed):
     for R in RADII[tier]:
         for orient in ORIENTS:
             u.append((cfg, dict(part="free", R=R, orient=orient, tier=tier)))
-            for half in (0, 1, 2, 3):
+            for half in range(6):
                 u.append((cfg, dict(part="man", R=R, orient=orient, tier=tier, half=half)))
             u.append((cfg, dict(part="kepler", R=R, orient=orient, tier=tier)))
             u.append((cfg, dict(part="helper", R=R, orient=orient, tier=tier)))
@@ -756,17 +756,18 @@ def run_unit(p, t):
         t.sample(dict(kind="agree", R=R, orient=orient, s=sts[-1], mans=[], q=dd[-1]))
     elif p["part"] == "man":
         lists = man_lists(R, tier) + inburn_lists(R, tier)
-        s_alpha = [[0.0] * 6, [120.0, -300.0, 45.0, 0.3, -0.2, 0.1]]
+        # linear problem: the forced response is seen on top of any initial state; thorough adds the pure forced response
+        s_alpha = [[120.0, -300.0, 45.0, 0.3, -0.2, 0.1]] if tier == "quick" else [[0.0] * 6, [120.0, -300.0, 45.0, 0.3, -0.2, 0.1]]
         for li, mans in enumerate(lists):
-            if li % 4 != p["half"] or not mans:
+            if li % 6 != p["half"] or not mans:
                 continue
             qs = queries(mans, R)
             for s in s_alpha:
                 for q in qs:
                     check_case(dict(kind="agree", R=R, orient=orient, s=s, mans=mans, q=q), t)
-                    if orient == "QSW" and s is s_alpha[1]:
+                    if orient == "QSW" and s is s_alpha[-1]:
                         check_case(dict(kind="perm", R=R, s=s, mans=mans, q=q), t)
-            s = s_alpha[1]
+            s = s_alpha[-1]
             for m in mans:
                 if m["type"] == "I":
                     check_case(dict(kind="jump", R=R, orient=orient, s=s, mans=mans, b=m["start"]), t)
